@@ -164,8 +164,13 @@ static void ctx_flush(CtxSlot& s)
   }
 }
 
+static std::vector<std::string> g_end_op;
+static std::string run_kop(const std::vector<std::string>& a);
+
 static void free_all()
 {
+  if (g_end_op.empty()) g_end_op.push_back("k.end");
+  run_kop(g_end_op);
   for (int i = 0; i < 8; ++i) { if (g_exe[i]) { delete g_exe[i]; g_exe[i] = nullptr; } }
   for (int i = 0; i < 8; ++i)
   {
@@ -600,6 +605,199 @@ static std::string do_setvar(Context& ctx, const std::string& name, const std::s
 }
 
 /* ------------------------------------------------------------------------ */
+/* C API primitives (C15): handles are kept in small tables                  */
+static bloc_context * k_ctx[4];
+static int k_fd[4] = { -1, -1, -1, -1 };
+static bloc_symbol * k_sym[4][4];
+static bloc_value * k_val[4];          /* caller-owned */
+static bloc_value * k_lib[4];          /* library-owned pointers kept by the caller */
+static bloc_expression * k_exp[4];
+static bloc_executable * k_exe[4];
+
+static std::string k_inspect(bloc_value * v)
+{
+  if (!v) return "{\"null_ptr\":1}";
+  std::string o = "{";
+  bloc_type t = bloc_value_type(v);
+  o += "\"major\":" + std::to_string((int)t.major) + ",\"ndim\":" + std::to_string(t.ndim);
+  o += ",\"isnull\":" + std::to_string((int)bloc_value_isnull(v));
+  { bloc_bool * b = (bloc_bool*)0x1; bloc_bool r = bloc_boolean(v, &b); o += ",\"boolean\":[" + std::to_string((int)r) + "," + (r ? (b ? std::to_string((int)*b) : "null") : "0") + "]"; }
+  { int64_t * b = (int64_t*)0x1; bloc_bool r = bloc_integer(v, &b); o += ",\"integer\":[" + std::to_string((int)r) + "," + (r ? (b ? "\"" + std::to_string(*b) + "\"" : "null") : "0") + "]"; }
+  { double * b = (double*)0x1; bloc_bool r = bloc_numeric(v, &b); o += ",\"numeric\":[" + std::to_string((int)r) + "," + (r ? (b ? jstr(dbl_str(*b)) : "null") : "0") + "]"; }
+  { const char * b = (const char*)0x1; bloc_bool r = bloc_literal(v, &b); o += ",\"literal\":[" + std::to_string((int)r) + "," + (r ? (b ? jstr(hexenc(b, strlen(b))) : "null") : "0") + "]"; }
+  { const char * b = (const char*)0x1; unsigned len = 0; bloc_bool r = bloc_tabchar(v, &b, &len); o += ",\"tabchar\":[" + std::to_string((int)r) + "," + (r ? (b ? jstr(hexenc(b, len)) : "null") : "0") + "]"; }
+  { bloc_pair * b = (bloc_pair*)0x1; bloc_bool r = bloc_imaginary(v, &b); o += ",\"imaginary\":[" + std::to_string((int)r) + "," + (r ? (b ? jstr(dbl_str(b->a) + "," + dbl_str(b->b)) : "null") : "0") + "]"; }
+  { bloc_array * a = (bloc_array*)0x1; bloc_bool r = bloc_table(v, &a);
+    o += ",\"table\":[" + std::to_string((int)r) + ",";
+    if (r && a) { unsigned n = bloc_array_size(a); o += "[" + std::to_string(n); bloc_value * it = nullptr;
+      for (unsigned i = 0; i < n && i < 4; ++i) { if (bloc_array_item(a, i, &it)) { std::string d; dump_value(d, *reinterpret_cast<Value*>(it)); o += "," + jstr(d); } else o += ",\"<noitem>\""; }
+      bloc_value * past = nullptr; o += std::string(",") + (bloc_array_item(a, n, &past) ? "\"past-end-accepted\"" : "\"past-end-refused\""); o += "]"; }
+    else o += (r ? "null" : "0");
+    o += "]"; }
+  { bloc_row * a = (bloc_row*)0x1; bloc_bool r = bloc_tuple(v, &a);
+    o += ",\"tuple\":[" + std::to_string((int)r) + ",";
+    if (r && a) { unsigned n = bloc_tuple_size(a); o += "[" + std::to_string(n); bloc_value * it = nullptr;
+      for (unsigned i = 0; i < n && i < 6; ++i) { if (bloc_tuple_item(a, i, &it)) { std::string d; dump_value(d, *reinterpret_cast<Value*>(it)); o += "," + jstr(d); } else o += ",\"<noitem>\""; }
+      bloc_value * past = nullptr; o += std::string(",") + (bloc_tuple_item(a, n, &past) ? "\"past-end-accepted\"" : "\"past-end-refused\""); o += "]"; }
+    else o += (r ? "null" : "0");
+    o += "]"; }
+  std::string d; dump_value(d, *reinterpret_cast<Value*>(v));
+  o += ",\"dump\":" + jstr(d) + "}";
+  return o;
+}
+
+static std::string k_err()
+{
+  const char * m = bloc_strerror();
+  return "\"errno\":" + std::to_string(bloc_errno()) + ",\"strerror\":" + jstr(m ? m : "<NULL>");
+}
+
+static std::string run_kop(const std::vector<std::string>& a)
+{
+  const std::string& op = a[0];
+  auto I = [&](size_t i) { return i < a.size() ? atoi(a[i].c_str()) : 0; };
+  if (op == "k.create")
+  {
+    int c = I(1);
+    if (k_fd[c] < 0) k_fd[c] = memfd_create("kout", 0);
+    k_ctx[c] = bloc_create_context(k_fd[c], k_fd[c]);
+    return std::string("{\"r\":\"ok\",\"ptr\":") + (k_ctx[c] ? "1" : "0") + "}";
+  }
+  if (op == "k.clone")
+  {
+    int c = I(1), d = I(2);
+    if (k_fd[d] < 0) k_fd[d] = memfd_create("kout", 0);
+    k_ctx[d] = bloc_clone_context2(k_ctx[c], k_fd[d], k_fd[d]);
+    for (int s = 0; s < 4; ++s) k_sym[d][s] = nullptr;
+    return std::string("{\"r\":\"ok\",\"ptr\":") + (k_ctx[d] ? "1" : "0") + "}";
+  }
+  if (op == "k.free") { int c = I(1); bloc_free_context(k_ctx[c]); k_ctx[c] = nullptr; for (int s = 0; s < 4; ++s) k_sym[c][s] = nullptr; return "{\"r\":\"ok\"}"; }
+  if (op == "k.purge") { bloc_ctx_purge(k_ctx[I(1)]); for (int s = 0; s < 4; ++s) k_sym[I(1)][s] = nullptr; return "{\"r\":\"ok\"}"; }
+  if (op == "k.purgewm") { bloc_ctx_purge_working_mem(k_ctx[I(1)]); return "{\"r\":\"ok\"}"; }
+  if (op == "k.reg")
+  {
+    int c = I(1), s = I(2);
+    bloc_type t = { (bloc_type_major)I(4), (unsigned)I(5) };
+    k_sym[c][s] = bloc_ctx_register_symbol(k_ctx[c], a[3].c_str(), t);
+    return std::string("{\"r\":\"ok\",\"ptr\":") + (k_sym[c][s] ? "1" : "0") + "," + k_err() + "}";
+  }
+  if (op == "k.find")
+  {
+    int c = I(1), s = I(2);
+    k_sym[c][s] = bloc_ctx_find_symbol(k_ctx[c], a[3].c_str());
+    return std::string("{\"r\":\"ok\",\"ptr\":") + (k_sym[c][s] ? "1" : "0") + "}";
+  }
+  if (op == "k.store")
+  {
+    int c = I(1), s = I(2), v = I(3);
+    bloc_bool r = bloc_ctx_store_variable(k_ctx[c], k_sym[c][s], k_val[v]);
+    std::string e = k_err();   /* before any accessor touches the error record */
+    return "{\"r\":\"ok\",\"ret\":" + std::to_string((int)r) + "," + e + ",\"caller\":" + k_inspect(k_val[v]) + "}";
+  }
+  if (op == "k.load")
+  {
+    int c = I(1), s = I(2), l = I(3);
+    k_lib[l] = bloc_ctx_load_variable(k_ctx[c], k_sym[c][s]);
+    return "{\"r\":\"ok\",\"val\":" + k_inspect(k_lib[l]) + "}";
+  }
+  if (op == "k.new")
+  {
+    int v = I(1);
+    const std::string& sp = a[2];
+    bloc_value * x = nullptr;
+    if (sp.compare(0, 5, "null:") == 0) x = bloc_create_null((bloc_type_major)atoi(sp.c_str() + 5));
+    else if (sp == "snull") x = bloc_create_literal(nullptr);
+    else if (sp == "xnull") x = bloc_create_tabchar(nullptr, 0);
+    else if (sp[0] == 'b') x = bloc_create_boolean(sp[1] == '1' ? bloc_true : bloc_false);
+    else if (sp[0] == 'i') x = bloc_create_integer(strtoll(sp.c_str() + 1, nullptr, 10));
+    else if (sp[0] == 'd') x = bloc_create_numeric(strtod(sp.c_str() + 1, nullptr));
+    else if (sp[0] == 's') { std::string t = hexdec(sp.substr(1)); x = bloc_create_literal(t.c_str()); }
+    else if (sp[0] == 'x') { std::string t = hexdec(sp.substr(1)); x = bloc_create_tabchar(t.data(), (unsigned)t.size()); }
+    else if (sp[0] == 'c') { bloc_pair p; size_t q = sp.find(','); p.a = strtod(sp.substr(1, q - 1).c_str(), nullptr); p.b = strtod(sp.substr(q + 1).c_str(), nullptr); x = bloc_create_imaginary(p); }
+    k_val[v] = x;
+    return "{\"r\":\"ok\",\"val\":" + k_inspect(x) + "}";
+  }
+  if (op == "k.freeval") { int v = I(1); bloc_free_value(k_val[v]); k_val[v] = nullptr; return "{\"r\":\"ok\"}"; }
+  if (op == "k.assign")
+  {
+    int v = I(1);
+    const std::string& sp = a[2];
+    int r = -1;
+    if (sp == "null") { bloc_assign_null(k_val[v]); r = 1; }
+    else if (sp == "litnull") r = bloc_assign_literal(k_val[v], nullptr);
+    else if (sp == "tabnull") r = bloc_assign_tabchar(k_val[v], nullptr, 0);
+    else if (sp.compare(0, 4, "lit:") == 0) { std::string t = hexdec(sp.substr(4)); r = bloc_assign_literal(k_val[v], t.c_str()); }
+    else if (sp.compare(0, 4, "tab:") == 0) { std::string t = hexdec(sp.substr(4)); r = bloc_assign_tabchar(k_val[v], t.data(), (unsigned)t.size()); }
+    return "{\"r\":\"ok\",\"ret\":" + std::to_string(r) + ",\"val\":" + k_inspect(k_val[v]) + "}";
+  }
+  if (op == "k.inspect") return "{\"r\":\"ok\",\"val\":" + k_inspect(a[1] == "v" ? k_val[I(2)] : k_lib[I(2)]) + "}";
+  if (op == "k.pexpr")
+  {
+    int c = I(1), e = I(2);
+    std::string t = hexdec(a[3]);
+    k_exp[e] = bloc_parse_expression(k_ctx[c], t.c_str());
+    return std::string("{\"r\":\"ok\",\"ptr\":") + (k_exp[e] ? "1" : "0") + "," + k_err() + "}";
+  }
+  if (op == "k.etype")
+  {
+    bloc_type t = bloc_expression_type(k_ctx[I(1)], k_exp[I(2)]);
+    return "{\"r\":\"ok\",\"major\":" + std::to_string((int)t.major) + ",\"ndim\":" + std::to_string(t.ndim) + "}";
+  }
+  if (op == "k.eval")
+  {
+    int c = I(1), e = I(2), l = I(3);
+    k_lib[l] = bloc_evaluate_expression(k_ctx[c], k_exp[e]);
+    std::string er = k_err();
+    return "{\"r\":\"ok\"," + er + ",\"val\":" + k_inspect(k_lib[l]) + "}";
+  }
+  if (op == "k.freeexpr") { int e = I(1); bloc_free_expression(k_exp[e]); k_exp[e] = nullptr; return "{\"r\":\"ok\"}"; }
+  if (op == "k.pexe")
+  {
+    int c = I(1), x = I(2);
+    std::string t = hexdec(a[3]);
+    bloc_parsing_position pos = { -7, -7 };
+    k_exe[x] = bloc_parse_executable(k_ctx[c], t.c_str(), I(4) ? &pos : nullptr);
+    return std::string("{\"r\":\"ok\",\"ptr\":") + (k_exe[x] ? "1" : "0") + "," + k_err() + ",\"lno\":" + std::to_string(pos.lno) + ",\"pno\":" + std::to_string(pos.pno) + "}";
+  }
+  if (op == "k.exec")
+  {
+    bloc_bool r = bloc_execute(k_exe[I(1)]);
+    return "{\"r\":\"ok\",\"ret\":" + std::to_string((int)r) + "," + k_err() + "}";
+  }
+  if (op == "k.exec2")
+  {
+    bloc_bool r = bloc_execute2(k_ctx[I(1)], k_exe[I(2)]);
+    return "{\"r\":\"ok\",\"ret\":" + std::to_string((int)r) + "," + k_err() + "}";
+  }
+  if (op == "k.freeexe") { int x = I(1); bloc_free_executable(k_exe[x]); k_exe[x] = nullptr; return "{\"r\":\"ok\"}"; }
+  if (op == "k.drop")
+  {
+    int c = I(1), v = I(2);
+    k_val[v] = bloc_drop_returned(k_ctx[c]);
+    return "{\"r\":\"ok\",\"val\":" + k_inspect(k_val[v]) + "}";
+  }
+  if (op == "k.break") { bloc_break(k_ctx[I(1)]); return "{\"r\":\"ok\"}"; }
+  if (op == "k.reset") { bloc_reset_stop(k_ctx[I(1)]); return "{\"r\":\"ok\"}"; }
+  if (op == "k.out")
+  {
+    int c = I(1);
+    if (k_ctx[c]) { FILE * f = bloc_ctx_out(k_ctx[c]); if (f) fflush(f); }
+    std::string o = read_fd(k_fd[c]);
+    return "{\"r\":\"ok\",\"out\":\"" + hexenc(o) + "\"}";
+  }
+  if (op == "k.errno") return "{\"r\":\"ok\"," + k_err() + "}";
+  if (op == "k.end")
+  {
+    for (int i = 0; i < 4; ++i) { if (k_val[i]) { bloc_free_value(k_val[i]); k_val[i] = nullptr; } k_lib[i] = nullptr; }
+    for (int i = 0; i < 4; ++i) { if (k_exp[i]) { bloc_free_expression(k_exp[i]); k_exp[i] = nullptr; } }
+    for (int i = 0; i < 4; ++i) { if (k_exe[i]) { bloc_free_executable(k_exe[i]); k_exe[i] = nullptr; } }
+    for (int i = 3; i >= 0; --i) { if (k_ctx[i]) { bloc_free_context(k_ctx[i]); k_ctx[i] = nullptr; } if (k_fd[i] >= 0) { close(k_fd[i]); k_fd[i] = -1; } }
+    return "{\"r\":\"ok\"}";
+  }
+  return "{\"r\":\"badop\"}";
+}
+
+/* ------------------------------------------------------------------------ */
 struct Case { std::string id; std::vector<std::vector<std::string>> ops; };
 
 static std::vector<Case> load_cases(const char * path)
@@ -643,6 +841,7 @@ static std::string run_op(const std::vector<std::string>& a)
   const std::string& op = a[0];
   g_budget_hit = false;
   g_steps = 0;
+  if (op.compare(0, 2, "k.") == 0) return run_kop(a);
   if (op == "ctx")
   {
     int i = atoi(a[1].c_str());
